@@ -494,3 +494,73 @@ var _ *pb.SharedGroupProposal
 //@ ensures [C20 client-over-the-current-connection] isnil(ret1) && !old(has(this.nodeClients, nodeId)) ==> !isnil(ret0) && dialled != nil && raftStubOver(ret0) == dialled && has(this.clusterConn.conns, nodeId) && this.clusterConn.conns[nodeId] == dialled
 //@ ensures [C20 unknown-node-is-an-error] !old(has(this.nodeClients, nodeId)) && !old(has(this.clusterConn.conns, nodeId)) && !has(this.clusterConn.addresses, nodeId) ==> !isnil(ret1)
 //@ modifies map(this.clusterConn.conns)
+
+// ---------------------------------------------------------------------------------------------
+// C20, the joining side ("after a node's join is acknowledged every member eventually lists it with the address it announced").
+// tryJoin asks ONE member to add this node under this node's own id and address, and lists every node the member streams back
+// under the streamed address. Join reports success only if some attempt was taken by a member: with a non-empty seed list, a nil
+// result means one tryJoin returned nil (an empty list is the bootstrap node's case: nothing to join).
+//@ func (*cluster.Conn).DialAddress
+//@ props C20
+//@ assume
+//@ ensures [conn-xor-error] isnil(ret1) ==> ret0 != nil
+//@ modifies nothing
+//@ func (*cluster.Conn).Address
+//@ props C20
+//@ pure
+//@ ensures [own-address] ret == this.address
+//@ modifies nothing
+//@ func (*cluster.Conn).Id
+//@ props C20
+//@ pure
+//@ ensures [own-id] ret == this.id
+//@ modifies nothing
+//@ func protobuf.NewNodesManagerClient
+//@ props C20
+//@ assume
+//@ ensures [stub] !isnil(ret)
+//@ modifies nothing
+//@ func iface:protobuf.NodesManagerClient.AddNode
+//@ props C20
+//@ assume
+//@ ensures [stream-xor-error] isnil(ret1) ==> !isnil(ret0)
+//@ modifies nothing
+//@ func iface:protobuf.NodesManager_AddNodeClient.Recv
+//@ props C20
+//@ assume
+//@ ensures [node-xor-error] isnil(ret1) ==> ret0 != nil
+//@ modifies nothing
+
+//@ func (*storage/raft.NodesManager).tryJoin
+//@ props C20
+//@ safety UNCLAIMED
+//@ ghost asked int = 0
+//@ at call NodesManagerClient.AddNode
+//@ requires [C20 announces-its-own-id-and-address] $arg2 != nil && $arg2.Id == this.clusterConn.id && $arg2.Address == this.clusterConn.address && asked == 0
+//@ set asked = asked + 1
+//@ end
+//@ at call Conn).AddNode
+//@ requires [C20 lists-what-the-member-streamed] $arg0 == this.clusterConn && $arg1 == node.Id && $arg2 == node.Address
+//@ end
+//@ requires [wf] this.clusterConn != nil && this.clusterConn.addresses != nil && this.clusterConn.conns != nil && !isnil(ctx) && forall j uint64 :: has(this.clusterConn.conns, j) ==> this.clusterConn.conns[j] != nil
+//@ ensures [C20 success-means-a-member-was-asked] isnil(ret) ==> asked == 1
+//@ ensures [connections-only-dropped] forall j uint64 :: has(this.clusterConn.conns, j) ==> old(has(this.clusterConn.conns, j)) && this.clusterConn.conns[j] == old(this.clusterConn.conns[j])
+//@ modifies map(this.clusterConn.addresses), map(this.clusterConn.conns)
+//@ loop 1
+//@ invariant [connections-only-dropped] forall j uint64 :: has(this.clusterConn.conns, j) ==> old(has(this.clusterConn.conns, j)) && this.clusterConn.conns[j] == old(this.clusterConn.conns[j])
+//@ invariant [asked] asked == 1 && this.clusterConn != nil && this.clusterConn.addresses != nil && this.clusterConn.conns != nil && forall j uint64 :: has(this.clusterConn.conns, j) ==> this.clusterConn.conns[j] != nil
+
+//@ func (*storage/raft.NodesManager).Join
+//@ props C20
+//@ safety UNCLAIMED
+//@ ghost taken int = 0
+//@ at call NodesManager).tryJoin
+//@ requires [C20 tries-the-listed-addresses] $arg2 == addr && taken == 0
+//@ set taken = ite(isnil($ret0), 1, 0)
+//@ end
+//@ requires [wf] this.clusterConn != nil && this.clusterConn.addresses != nil && this.clusterConn.conns != nil && !isnil(ctx) && forall j uint64 :: has(this.clusterConn.conns, j) ==> this.clusterConn.conns[j] != nil
+//@ ensures [C20 acknowledged-join-was-taken-by-a-member] isnil(ret) && len(addresses) > 0 ==> taken == 1
+//@ modifies map(this.clusterConn.addresses), map(this.clusterConn.conns)
+//@ loop 1
+//@ invariant [none-yet] taken == 0 && this.clusterConn != nil && this.clusterConn.addresses != nil && this.clusterConn.conns != nil && forall j uint64 :: has(this.clusterConn.conns, j) ==> this.clusterConn.conns[j] != nil
+//@ invariant [not-the-last-yet] 0 - 1 <= rangeindex && (rangeindex < len(addresses) - 1 || len(addresses) == 0)
